@@ -79,6 +79,14 @@ MUT={
 	r := session.TokenReader()''','''	_ = w.Flush()
 
 	r := session.TokenReader()''')),
+ 'c03-m12-shared-scratch-buffer': ('C03', lambda: subprocess.run(['git','apply','/verif/seeded/C03-5/patch.diff'],cwd=R,check=True)),
+ 'c03-m13-selected-mechanism-kept-in-closure': ('C03', lambda: (sub('sasl.go','''	return StreamFeature{
+		Name:       xml.Name{Space: ns.SASL, Local: "mechanisms"},''','''	var lastData interface{}
+	return StreamFeature{
+		Name:       xml.Name{Space: ns.SASL, Local: "mechanisms"},'''), sub('sasl.go','''			return negotiateClient(ctx, identity, password, session, data, mechanisms...)''','''			if data != nil {
+				lastData = data
+			}
+			return negotiateClient(ctx, identity, password, session, lastData, mechanisms...)'''))),
  'c03-h1-harmless-encode-to-string': ('C03', lambda: sub('sasl.go','''		var encodedResp []byte
 		if len(resp) == 0 {
 			encodedResp = []byte{'='}
@@ -175,6 +183,12 @@ MUT={
 					hdrConn = tc.Conn
 				}
 				err = intstream.Send(hdrConn, out, websocket, stream.DefaultVersion, cfg.Lang, location.String(), origin.String(), "")''')),
+ 'c12-m14-bind-request-hoisted-into-closure': ('C12', lambda: (sub('bind.go','''	return StreamFeature{
+		Name:       xml.Name{Space: ns.Bind, Local: "bind"},''','''	var resReq bindIQ
+	return StreamFeature{
+		Name:       xml.Name{Space: ns.Bind, Local: "bind"},'''), sub('bind.go','''				resReq := bindIQ{}
+''','''				resReq = bindIQ{}
+'''))),
  'c12-h1-harmless-double-quotes': ('C12', lambda: (sub('internal/stream/stream.go','''b.WriteString(" " + attr.name + "='")''','''b.WriteString(" " + attr.name + "=\\"")'''), sub('internal/stream/stream.go','''		_, err = b.WriteString("'")
 		if err != nil {
 			return err
